@@ -341,7 +341,7 @@ def judge_verify(ctx, case):
         if 1 <= r < n and 1 <= s < n and RE.verification_point(c, Q, z % n, r, s) is None:
             mech = "verify.raises.point_at_infinity"
         rec.violation(mech, case, got, exp)
-    elif bool(got) != exp or not isinstance(got, (bool, int)):
+    elif bool(got) != exp:
         if got and not exp:
             rec.violation("verify.accepts_invalid." + _reason(n, r, s), case, got, exp)
         else:
@@ -717,4 +717,8 @@ def replay_case(case, rec):
     if kind == "import":
         return
     case = dict(case, curve=curve)
+    other = case.get("other")
+    if kind == "sign" and isinstance(other, dict) and "d" in other:
+        # nonce-table violations need the earlier event too: replay it first (z mod n names the same message)
+        JUDGES["sign"](ctx, dict(case, d=int(other["d"]), z=int(other["z_mod_n"]) or ctx.c.n, other=None))
     JUDGES[kind](ctx, case)
